@@ -15,6 +15,9 @@
 (* AllocOutcomeOK evaluated on the state BEFORE the event; (U) = InvU as a   *)
 (* CONSTRAINT in Trace.cfg.  A recovered panic is recorded as event `panic`: *)
 (* there is no such action, the segment is rejected.                         *)
+(* C19 (harness zz_verif_c19_test.go, TestVerifC19Device) adds the event     *)
+(* `restart`: obs is then the projection of a FRESH cache rebuilt from the   *)
+(* persisted objects only (TRestart).                                        *)
 EXTENDS Device, TraceCommon
 
 (****************************** reading events ******************************)
